@@ -2,6 +2,8 @@ package props
 
 import (
 	"fmt"
+	"os"
+	"path/filepath"
 	"regexp"
 	"sort"
 	"strconv"
@@ -178,7 +180,58 @@ func TestC16Damage(t *testing.T) {
 			if rapid.IntRange(0, 7).Draw(rt, "deleteFailsDuringAdoption") == 0 {
 				adoptFaults = []byte{'D'}
 			}
-			n, _ := h0.restart(restartOpts{K: k, Late: rapid.Bool().Draw(rt, "late"), Config: cfg, AdoptFailNext: adoptFaults, Mutate: func(store map[uint][]byte) {
+			// stray entries as a directory can hold them (FileSystem behind the
+			// double): a second spelling of a record's name, a sub-directory with
+			// a name like a key, leftovers of interrupted saves, foreign files
+			flavour := ""
+			var fsMutate func(dir string)
+			var fsStrays []string
+			if len(adoptFaults) == 0 && rapid.IntRange(0, 3).Draw(rt, "directoryStrays") == 0 {
+				flavour = "filesystem"
+				type strayT struct{ kind, name string }
+				var list []strayT
+				for i, ns := 0, rapid.IntRange(1, 3).Draw(rt, "nDirectoryStrays"); i < ns; i++ {
+					kind := rapid.SampledFrom([]string{"uppercase-twin", "directory", "spool-leftover", "foreign-file", "short-name", "long-name"}).Draw(rt, "strayKind")
+					name := ""
+					switch kind {
+					case "uppercase-twin":
+						if len(outKeys) == 0 {
+							continue
+						}
+						key := outKeys[rapid.IntRange(0, len(outKeys)-1).Draw(rt, "twinOf")]
+						name = strings.ToUpper(fmt.Sprintf("%05x", key))
+						if name == fmt.Sprintf("%05x", key) {
+							continue // no letters in it
+						}
+					case "directory":
+						name = fmt.Sprintf("%05x", rapid.SampledFrom([]int{0x0abcd, 0x00007, 0x1ffff, 0x0c00f}).Draw(rt, "dirName"))
+					case "spool-leftover":
+						name = fmt.Sprintf("%05x.spool", rapid.SampledFrom([]int{0x8000, 0xc000, 0x8001, 0x10001}).Draw(rt, "spoolKey"))
+					case "foreign-file":
+						name = rapid.SampledFrom([]string{"zzzzz", ".keep", "notes.txt", "0x001", "+0001", "0_001"}).Draw(rt, "foreignName")
+					case "short-name":
+						name = "8000"
+					case "long-name":
+						name = "008000"
+					}
+					list = append(list, strayT{kind, name})
+					fsStrays = append(fsStrays, kind+":"+name)
+				}
+				fsMutate = func(dir string) {
+					for _, st := range list {
+						p := filepath.Join(dir, st.name)
+						if _, err := os.Lstat(p); err == nil {
+							continue // (a genuine record has this very name)
+						}
+						if st.kind == "directory" {
+							os.Mkdir(p, 0o700)
+						} else {
+							os.WriteFile(p, []byte("stray entry, not a record"), 0o600)
+						}
+					}
+				}
+			}
+			n, _ := h0.restart(restartOpts{K: k, Late: rapid.Bool().Draw(rt, "late"), Config: cfg, AdoptFailNext: adoptFaults, StoreFlavour: flavour, FSMutate: fsMutate, Mutate: func(store map[uint][]byte) {
 				for _, d := range dmg {
 					v := store[d.Key]
 					switch d.Kind {
@@ -200,7 +253,11 @@ func TestC16Damage(t *testing.T) {
 			for _, d := range dmg {
 				ds = append(ds, d.String())
 			}
-			n.Act("damage %v stray %d", ds, len(stray))
+			n.Act("damage %v stray %d directory strays %v", ds, len(stray), fsStrays)
+			if len(fsStrays) != 0 {
+				ds = append(ds, fsStrays...)
+				n.label("stray-directory-entries")
+			}
 			summary = append(summary, fmt.Sprintf("k=%d pending=%s damage=%v strays=%d", k, describePending(pend0), ds, len(stray)))
 			if len(dmg) >= 1 && len(pend0) >= 2 {
 				nontrivial = true
